@@ -401,16 +401,19 @@ _amend("C04", "text", "(R04.1-R04.21, DESIGN.md §4 C04;", "(R04.1-R04.22, DESIG
 _amend("C04", "text", "Decides twenty-one structural clauses only", "Decides twenty-two structural clauses only")
 _amend("C09", "text", "(R09.1, R09.3-R09.21, DESIGN.md §4 C09;", "(R09.1, R09.3-R09.23, DESIGN.md §4 C09;")
 # twelfth pass
-_amend("C01", "text", "(R01.1-R01.37;", "(R01.1-R01.40;")
-_amend("C01", "text", "Decides thirty-seven structural", "Decides forty structural")
+_amend("C01", "text", "(R01.1-R01.37;", "(R01.1-R01.41;")
+_amend("C01", "text", "Decides thirty-seven structural", "Decides forty-one structural")
 _amend("C02", "text", "DESIGN.md §4 C02", "DESIGN.md §4 C02; R02.11: every binding of a scope takes its name from the generator")
-_amend("C04", "text", "(R04.1-R04.22, DESIGN.md §4 C04;", "(R04.1-R04.23, DESIGN.md §4 C04;")
+_amend("C04", "text", "(R04.1-R04.22, DESIGN.md §4 C04;", "(R04.1-R04.24, DESIGN.md §4 C04; R04.24 reports a known finding, `initial` next to other border colours, pinned by the suite;")
 _amend("C08", "text", "Decides eleven shape clauses only (R08.1-R08.11,", "Decides twelve shape clauses only (R08.1-R08.12,")
-_amend("C10", "text", "(R10.1-R10.17,", "(R10.1-R10.18,")
-_amend("C10", "text", "Decides seventeen structural clauses", "Decides eighteen structural clauses")
+_amend("C10", "text", "(R10.1-R10.17,", "(R10.1-R10.19,")
+_amend("C10", "text", "Decides seventeen structural clauses", "Decides nineteen structural clauses")
 _amend("C11", "text", "(R11.1-R11.10 with R11.9a-d, DESIGN.md §4 C11;", "(R11.1-R11.11 with R11.9a-d, DESIGN.md §4 C11;")
 _amend("C14", "text", "(R14.1-R14.7, DESIGN.md §4 C14)", "(R14.1-R14.8, DESIGN.md §4 C14)")
 _amend("C18", "text", "(R18.1-R18.9, DESIGN.md §4 C18):", "(R18.1-R18.11, DESIGN.md §4 C18):")
+_amend("C02", "text", "R02.11: every binding of a scope takes its name from the generator", "R02.11: every binding of a scope takes its name from the generator; R02.12 reports a known finding in the pinned parser: the name of a class expression is in no scope")
+_amend("C03", "text", "Decides eighteen local clauses (R03.1-R03.18 incl. R03.5c-f,", "Decides nineteen local clauses (R03.1-R03.19 incl. R03.5c-f,")
+_amend("C19", "text", "(R19.1-R19.23,", "(R19.1-R19.24,")
 
 if __name__ == "__main__":
     main()
